@@ -109,8 +109,8 @@ def make_file(rng, kind_, path):
         text = '<?xml version="1.0"?>\n<html><body><p>hello</p></body></html>\n'
     else:
         text = '<?xml version="1.0"?>\n<odML version="1"><section><type>t</type></section></odML>\n'
-    with io.open(path, "w", encoding=encoding) as f:
-        f.write(text)
+    with io.open(path, "w", encoding=encoding, errors="xmlcharrefreplace" if encoding != "utf-8" else "strict") as f:
+        f.write(text)      # (characters outside the target encoding become character references, which is valid XML)
     return info
 
 
@@ -119,7 +119,7 @@ def build_tree(rng, kinds, root):
     os.makedirs(root)
     for i, k in enumerate(kinds):
         depth = rng.choice([0, 0, 1, 2])
-        sub = os.path.join(root, *["d%d" % rng.randrange(2) for _ in range(depth)])
+        sub = os.path.join(root, *[rng.choice(["d%d", "d%d", ".d%d", "d[%d]"]) % rng.randrange(2) for _ in range(depth)])
         os.makedirs(sub, exist_ok=True)
         name = "f%d_%s%s" % (i, k.replace("-", "_"), EXT[k])
         path = os.path.join(sub, name)
@@ -259,7 +259,7 @@ def run_case(case, ctx, sdir):
     work = os.path.join(sdir, "c17_%d" % os.getpid())
     shutil.rmtree(work, ignore_errors=True)
     os.makedirs(work)
-    indir = os.path.join(work, "in put" if case.get("space") else "input")
+    indir = os.path.join(work, {True: "in put", "glob": "in[1]put", "star": "in*put?"}.get(case.get("space"), "input"))
     files = build_tree(rng, case["kinds"], indir)
     tool, recursive, explicit = case["tool"], case["recursive"], case["explicit_out"]
     outroot = os.path.join(work, "out")
@@ -400,7 +400,7 @@ def run(ctx):
             rng = random.Random("C17|%s|%d" % (ctx.seed, i))
             rng.shuffle(kinds)
             case = {"kinds": kinds, "tool": tool, "recursive": rng.random() < 0.6, "explicit_out": rng.random() < 0.5,
-                    "seed": "C17|%s|%d" % (ctx.seed, i), "space": rng.random() < 0.2}
+                    "seed": "C17|%s|%d" % (ctx.seed, i), "space": rng.choice([False, False, False, False, True, "glob", "star"])}
             if not ctx.quick() and tool != "format_converter":
                 # thorough: every composition under all four option combinations
                 for rec_, exp_ in ((True, True), (True, False), (False, True), (False, False)):
